@@ -1,4 +1,4 @@
-import Eru.Cluster.ProofsCreate
+import Eru.Cluster.ProofsNode
 /-
 C10 — Node usage always equals the sum of the workloads recorded on the node.
 
@@ -29,6 +29,7 @@ once (keys of Go's `deployMap`); the resource layer's realloc answer is coherent
 def ArgsOK (s : State R) : Op R → Prop
   | .create a => (a.plan.map (·.1)).Nodup
   | .realloc _ id ans => ReallocOK s id ans
+  | .addNode n _ => NoWlOn n s      -- no workload is recorded under the name of the node to add
   | _ => True
 
 /-- the faults under which the current code is known to break C10 (D13): those on the removal
@@ -56,6 +57,8 @@ theorem consistent_step_partial (op : Op R) (flt : Option Addr) (s : State R)
     have hG : ReplaceGuard flt := Classical.not_not.mp hex
     exact replace_inv n id flt hG { st := s } h
   | setNode n c => exact pres_setNode n c true flt { st := s } h
+  | addNode n c => exact (pres_addNode n c flt { st := s } ⟨h, hargs⟩).1
+  | removeNode n => exact pres_removeNode n flt { st := s } h
 
 /-- a history is admissible: every operation's arguments are fine in the state it runs in and no
 excluded fault is used -/
